@@ -14,7 +14,8 @@ RULE = ("1..6 (BC, Mach|velocity) points, BC 0.05..1.5, Mach 0.3..4 (>= 1e-3 apa
         "of the 5 velocity units, any order; any of the nine shipped tables given as the dict list, as the data-point "
         "list of an existing DragModel or of an existing multi-BC model; with/without weight+diameter; built once or "
         "twice from the same input objects, optionally with a second model sharing the inputs; non-trivial = >= 2 "
-        "points not in ascending order, or table passed as data points, or built twice; distinct = distinct case dicts")
+        "points not in ascending order, or table passed as data points, or built twice; distinct = distinct case dicts; history: the caller's own dict list edited in place between two builds "
+        "(same list object vs equal fresh list)")
 ASSUMPTIONS = ["reference: clamped piecewise-linear interpolation in Mach (vf/ref.py)",
                "velocity-given points: Mach abscissae may be scaled by any factor in [1-2e-5, 1+2e-5] (ISA sea-level "
                "speed of sound 340.294 m/s vs the library's 340.292); Mach-given points: 1e-9 relative",
